@@ -4,8 +4,10 @@ Written from the docstrings of sc3/base/stream.py, docs/guides/routine.rst and
 the property statement; never imports sc3.  Deliberately boring: a routine is
 a record (state, program counter into a straight-line script, recorded
 terminal value), a condition is (test, list of waiting routine names), a flow
-variable is (value or UNBOUND, condition), the clock is a bag counting how
-many wake-ups are owed to each routine.
+variable is (value or UNBOUND, condition), the clock is a flag per routine:
+is a wake-up owed to it (scheduling a task that is already pending on its clock
+moves it, it is not scheduled twice - TaskQueue.add docstring, and the same in
+the NRT scheduler).
 
 Bodies are *data* (the same data the check interprets with a real generator
 function on the real Routine):
@@ -50,6 +52,8 @@ Documented behaviour encoded here (source in brackets):
   is expected and nothing changes.
 * an exception derived from StopIteration that escapes a *generator* body is
   turned into RuntimeError by Python itself (PEP 479).
+* a routine that is stopped or reset while parked on a condition is not
+  waiting any more [statement: only a *waiting* routine is resumed].
 * Condition.wait(): parks the routine (non numeric yield) if the test is
   false, else re-schedules it immediately (yield 0); signal(): if the test
   is true every parked routine is re-scheduled once and the list is emptied;
@@ -168,14 +172,14 @@ class RefRoutine:
     def resume(self):
         if self.state == 'Paused':
             self.state = 'Suspended'
-            self.world.pending[self.name] += 1
+            self.world.pending[self.name] = 1
         return ret(None)
 
     def play(self, observed=None):
         if self.state == 'Init' or (self.state == 'Paused' and
                                     observed != 'Paused'):
             self.state = 'Suspended'
-            self.world.pending[self.name] += 1
+            self.world.pending[self.name] = 1
         return ret(None)
 
     def stop(self):
@@ -183,11 +187,13 @@ class RefRoutine:
             return exc('RoutineException')
         self.state = 'Done'
         self.pc = None
+        self.world.drop_waiter(self.name)
         return ret(None)
 
     def reset(self):
         if self.state == 'Running':
             return exc('RoutineException')
+        self.world.drop_waiter(self.name)
         self.state = 'Init'
         self.pc = None
         self.has_terminal = False
@@ -296,6 +302,7 @@ class RefWorld:
         self.stack = []
         self.log = []
         self.reentered = False      # a re-entrant next() happened so far
+        self.stale = set()          # routines stopped / reset while parked
 
     # -- operations from the main thread ------------------------------------
     def signal(self, c):
@@ -307,11 +314,27 @@ class RefWorld:
     def _release(self, cond, force):
         if force or cond.test:
             for n in cond.waiting:
-                self.pending[n] += 1
+                self.pending[n] = 1
             cond.waiting = []
 
     def set(self, c, v):
         self.conds[c].test = v
+
+    def drop_waiter(self, name):
+        """A routine that is stopped or reset is not waiting any more: a later
+        signal must not resume whatever it does by then."""
+        for c in list(self.conds.values()) + [f.cond
+                                              for f in self.fvs.values()]:
+            if name in c.waiting:
+                c.waiting = [n for n in c.waiting if n != name]
+                self.stale.add(name)
+
+    def owed(self, name):
+        return self.pending[name] > 0
+
+    def advances(self, name):
+        """Would a wake-up make the body of `name` run?"""
+        return self.r[name].state in ('Init', 'Suspended')
 
     def fvset(self, f, v):
         fv = self.fvs[f]
@@ -325,10 +348,10 @@ class RefWorld:
     def wake(self, name):
         """The clock runs one wake-up owed to `name`: next((routine, clock));
         a numeric result is re-scheduled."""
-        self.pending[name] -= 1
-        out = self.r[name].next('RC:' + name)
+        self.pending[name] = 0      # (a wake-up nobody owes is harmless if
+        out = self.r[name].next('RC:' + name)   # the body cannot run)
         if out[0] == 'ret' and is_number(out[1]):
-            self.pending[name] += 1
+            self.pending[name] = 1
         return out
 
     def states(self):
@@ -442,6 +465,13 @@ def selftest():
     w.wake('a')
     w.unhang('c')
     assert w.pending['a'] == 1
+    # stopped / reset while parked: not waiting any more
+    w = RefWorld({'a': G([['wait', 'c']], [['yield', 'x']])}, conds=['c'])
+    w.r['a'].play()
+    w.wake('a')
+    w.r['a'].reset()
+    w.unhang('c')
+    assert w.pending['a'] == 0 and w.stale == {'a'} and not w.owed('a')
     # FlowVar docstring
     w = RefWorld({'a': G([['fvget', 'f'], ['echo']])}, fvs=['f'])
     w.r['a'].play()
